@@ -24,7 +24,7 @@ T = ('T',)
 
 ALLOC = {'zeros', 'ones', 'empty', 'full', 'arange', 'linspace', 'zeros_like', 'ones_like', 'empty_like', 'array', 'eye'}
 ELEMENTWISE_METHODS = {'copy', 'astype', 'ravel', 'flatten', 'view', 'clip', 'round', 'conj'}
-ELEMENTWISE_FUNCS = {'sqrt', 'abs', 'absolute', 'exp', 'log', 'log10', 'sin', 'cos', 'where', 'minimum', 'maximum', 'asarray',
+ELEMENTWISE_FUNCS = {'dot', 'sqrt', 'abs', 'absolute', 'exp', 'log', 'log10', 'sin', 'cos', 'where', 'minimum', 'maximum', 'asarray',
                      'isfinite', 'isnan', 'logical_and', 'logical_or', 'logical_not', 'float64', 'float32', 'interp', 'clip',
                      'atleast_1d', 'sign', 'square', 'power', 'fmod', 'mod', 'floor', 'ceil'}
 METADATA_ATTRS = {'shape', 'size', 'dtype', 'ndim', 'nbytes', 'itemsize'}
@@ -48,8 +48,10 @@ def _elementwise(tagsets, node):
             return t2
         if t2 == N:
             return t1
-        if t1 == T or t2 == T:
-            return T
+        if t1 == T:
+            return t2      # unknown operands are compatible: scalars and look-ups do not disturb a known order
+        if t2 == T:
+            return t1
         if t1 == t2:
             return t1
         if t1[0] in ('PERM', 'IDX') or t2[0] in ('PERM', 'IDX'):
@@ -77,11 +79,15 @@ def fmt(t):
         return 'index-into(%s)' % fmt(t[1])
     if t[0] == 'BAD':
         return 'MIXED(%s)' % t[1]
+    if t[0] == 'SUB':
+        return 'selection-of(%s)' % fmt(t[1])
+    if t[0] == 'PSEL':
+        return 'selection-of-permutation %s' % t[1]
     return str(t)
 
 
 class OrderAnalysis:
-    def __init__(self, fa, aligned_params, elementwise_calls=(), fresh_calls=()):
+    def __init__(self, fa, aligned_params, elementwise_calls=(), fresh_calls=(), tuple_aligned_calls=None):
         """fa: FA of the function; aligned_params: parameter names that are arrays in the caller's order;
         elementwise_calls: names of functions/methods whose array result is aligned with their array
         arguments (the repo's own per-point routines)."""
@@ -89,6 +95,7 @@ class OrderAnalysis:
         self.aligned = set(aligned_params)
         self.elementwise_calls = set(elementwise_calls)
         self.fresh_calls = set(fresh_calls)
+        self.tuple_aligned = dict(tuple_aligned_calls or {})      # call name -> positions of the result tuple aligned with the args
         self.IN = None
 
     # ---- expression tags ---------------------------------------------------------------
@@ -156,8 +163,8 @@ class OrderAnalysis:
             return self.tags(f.value, st)
         if nm in ELEMENTWISE_FUNCS or nm in self.elementwise_calls:
             args = list(e.args) + [k.value for k in e.keywords if k.arg not in ('dtype', 'out', 'axis', 'const', 'order', 'left', 'right')]
-            if nm == 'interp':
-                args = args[:1]       # result aligned with the abscissae asked for
+            if nm in ('interp', 'dot'):
+                args = args[:1]       # result aligned with the abscissae asked for / with the rows of the first factor
             if isinstance(f, ast.Attribute) and nm in self.elementwise_calls and dotted(f.value) not in ('np', 'numpy', 'self'):
                 pass
             return _elementwise([self.tags(a, st) for a in args], e) if args else frozenset([T])
@@ -173,13 +180,16 @@ class OrderAnalysis:
             if first.lower is None and first.upper is None and first.step is None:
                 # [:, k] keeps the row alignment
                 return base
-            return frozenset(t if t[0] == 'BAD' else T for t in base)
+            # a contiguous block of an aligned array stays in the same order space
+            return frozenset(t if t[0] in ('BAD', 'ID', 'G', 'N', 'SUB') else T for t in base)
         if isinstance(first, ast.Constant):
             return frozenset([N]) if not isinstance(idx, ast.Tuple) else frozenset([T])
         it = self.tags(first, st)
         out = set()
         for b in base:
             for i in it:
+                if i[0] in ('ID', 'G'):
+                    i = ('IDX', i)            # an aligned (boolean) array used as a mask
                 if b[0] == 'BAD':
                     out.add(b)
                 elif i[0] == 'BAD':
@@ -190,21 +200,27 @@ class OrderAnalysis:
                     elif b[0] == 'G':
                         out.add(('BAD', '`%s` gathers by %s an array that is already sorted by %s (a second gather is not the inverse permutation)'
                                  % (src(e)[:50], i[1], b[1]), getattr(e, 'lineno', None)))
-                    elif b[0] == 'PERM':
-                        out.add(T)
-                    elif b[0] == 'IDX':
-                        out.add(T)
+                    else:
+                        out.add(b if b == N else T)
+                elif i[0] == 'PSEL':
+                    if b == ID:
+                        out.add(('SUB', ('G', i[1])))
+                    elif b[0] == 'G':
+                        out.add(('BAD', '`%s` applies a selection of permutation %s to an array already sorted by %s' % (src(e)[:50], i[1], b[1]),
+                                 getattr(e, 'lineno', None)))
                     else:
                         out.add(b if b == N else T)
                 elif i[0] == 'IDX':
                     space = i[1]
                     if b[0] in ('ID', 'G') and space[0] in ('ID', 'G') and b != space:
-                        out.add(('BAD', '`%s` indexes a %s array with an index list over a %s array' % (src(e)[:50], fmt(b), fmt(space)),
+                        out.add(('BAD', '`%s` indexes a %s array with an index list / mask over a %s array' % (src(e)[:50], fmt(b), fmt(space)),
                                  getattr(e, 'lineno', None)))
                     elif b[0] == 'PERM' and space == ('G', b[1]):
-                        out.add(('IDX', ID))          # positions in caller order of sorted-space indices
+                        out.add(('PSEL', b[1]))       # positions in caller order of a selection made in sorted space
+                    elif b[0] in ('ID', 'G'):
+                        out.add(('SUB', b))
                     else:
-                        out.add(T if b[0] not in ('N',) else N)
+                        out.add(T if b != N else N)
                 else:
                     out.add(T if b != N else N)
         return frozenset(out)
@@ -245,9 +261,14 @@ class OrderAnalysis:
             out[t.id] = self.tags(value, st, target=t.id)
             return out
         if isinstance(t, (ast.Tuple, ast.List)):
-            for x in t.elts:
+            pos = ()
+            if isinstance(value, ast.Call) and call_name(value) in self.tuple_aligned:
+                pos = self.tuple_aligned[call_name(value)]
+                args = list(value.args) + [k.value for k in value.keywords if k.arg not in ('lower', 'upper', 'groupbadpix', 'maxiter', 'const')]
+                al = _elementwise([self.tags(a, st) for a in args], value) if args else frozenset([T])
+            for k, x in enumerate(t.elts):
                 if isinstance(x, ast.Name):
-                    out[x.id] = frozenset([T])
+                    out[x.id] = al if k in pos else frozenset([T])
             return out
         if isinstance(t, ast.Subscript) and isinstance(t.value, ast.Name):
             name = t.value.id
@@ -257,21 +278,22 @@ class OrderAnalysis:
             vt = self.tags(value, st)
             if isinstance(first, (ast.Slice, ast.Constant)):
                 # partial / plain store: the array keeps its tag, neutral arrays take the value's
-                full = isinstance(first, ast.Slice) and first.lower is None and first.upper is None
-                if full:
-                    out[name] = _elementwise([cur, vt], stmt)
+                if isinstance(first, ast.Slice):
+                    out[name] = _elementwise([cur, frozenset(t for t in vt if t[0] != 'SUB') or frozenset([N])], stmt)
                 return out
             it = self.tags(first, st)
             new = set()
             for c in cur:
                 for i in it:
+                    if i[0] in ('ID', 'G'):
+                        i = ('IDX', i)
                     for v in vt:
                         if c[0] == 'BAD' or i[0] == 'BAD' or v[0] == 'BAD':
                             new.add(next(x for x in (c, i, v) if x[0] == 'BAD'))
                         elif i[0] == 'PERM':
                             p = i[1]
                             if v == ('G', p) or v == N:
-                                new.add(ID if c in (N, ID, T) else ('BAD', '`%s` scatters into an array that is %s' % (src(stmt)[:60], fmt(c)), stmt.lineno))
+                                new.add(ID)       # a full scatter by a permutation overwrites every element: strong update
                             elif v == ID:
                                 new.add(('BAD', '`%s` scatters caller-order values by %s (that is the inverse permutation, not the un-sort)'
                                          % (src(stmt)[:60], p), stmt.lineno))
